@@ -106,12 +106,15 @@ def set (t : KTable K P) (k : K) (g : Group P) : KTable K P :=
 /-- all stored routes -/
 def routes (t : KTable K P) : List (Entry P) := t.flatMap (·.2)
 
+/-- what `AddRoute` stores for an argument: `route.Clone()` with the stored form of the payload -/
+def stored (c : Cfg K P) (e : Entry P) : Entry P := { e with pay := c.store e.pay }
+
 /-- `AddRoute`: returns the new table and the boolean the Go method returns. -/
 def addRoute (c : Cfg K P) (self : Nat) (t : KTable K P) (e : Entry P) : KTable K P × Bool :=
   if !c.valid e.pay then (t, false)
   else if e.path.contains self then (t, false)      -- loop detected
   else
-    let e' := { e with pay := c.store e.pay }
+    let e' := stored c e
     let k := c.keyOf e'.pay
     match replG c.byHop e' (get t k) with
     | some none => (t, false)                       -- older / worse route
@@ -148,6 +151,15 @@ def cleanupStale (self now maxAge : Nat) (t : KTable K P) : KTable K P :=
 
 /-- `routes[0]` of the slice stored under `k` (GetRoute, and Lookup of the forward / agent tables) -/
 def best (t : KTable K P) (k : K) : Option (Entry P) := (get t k).head?
+
+/-- `HasRoute(key, origin)` -/
+def hasRoute (t : KTable K P) (k : K) (o : Nat) : Bool := (get t k).any (fun r => r.origin == o)
+
+/-- `Size()`: number of keys -/
+def size (t : KTable K P) : Nat := t.length
+
+/-- `TotalRoutes()` -/
+def totalRoutes (t : KTable K P) : Nat := (routes t).length
 
 /-! ### histories -/
 
@@ -274,6 +286,21 @@ def lookupStep (ip : IPAddr) (bestR : Option (Entry IPNet)) (kg : CKey × Group 
 /-- `Table.Lookup(ip)` for the iteration order `t`. -/
 def lookup (t : CTable) (ip : IPAddr) : Option (Entry IPNet) :=
   t.foldl (lookupStep ip) none
+
+/-- insertion step of the sort in `LookupAll`: longest prefix first, then metric -/
+def insAll (x : Entry IPNet) : List (Entry IPNet) → List (Entry IPNet)
+  | [] => [x]
+  | y :: ys =>
+    if rawOnes x.pay > rawOnes y.pay ∨ (rawOnes x.pay = rawOnes y.pay ∧ x.metric ≤ y.metric)
+    then x :: y :: ys else y :: insAll x ys
+
+/-- `Table.LookupAll(ip)`: the best route of every matching prefix, longest prefix first.
+    (Two matching slices never have the same prefix length in a well-formed table, so the
+    unstable `sort.Slice` has a single possible result.) -/
+def lookupAll (t : CTable) (ip : IPAddr) : List (Entry IPNet) :=
+  (t.filterMap fun kg => match kg.2 with
+    | first :: _ => if contains first.pay ip then some first else none
+    | [] => none).foldr insAll []
 
 /-- key used by `RemoveRoute` / `GetRoute` / `HasRoute` for a caller-supplied network -/
 def cidrKey (n : IPNet) : CKey := eff (canon n)
